@@ -1528,6 +1528,39 @@ def _finfo(L, dt):
     raise PyRaise(builtin_exc('ValueError'), 'finfo of non-float dtype')
 
 
+@model('numpy.column_stack')
+def _column_stack(L, tup):
+    """numpy.column_stack of 2-d arrays with the same number of rows (1-d arrays count as one column each)"""
+    arrs = [L.as_arr(a) for a in tup]
+    cols = []
+    for a in arrs:
+        if a.ndim == 1:
+            cols.append((a, None))
+        elif a.ndim == 2:
+            w = simp(a.shape[1])
+            if not isinstance(w, int):
+                raise Unsupported('column_stack of an array with a symbolic number of columns')
+            for k in range(w):
+                cols.append((a, k))
+        else:
+            raise Unsupported('column_stack rank')
+    n = arrs[0].shape[0]
+    dt = 'float64' if any(a.dtype in FLOAT_DT for a in arrs) else arrs[0].dtype
+
+    def f(ix):
+        j = simp(ix[1])
+        def cell(k):
+            a, c_ = cols[k]
+            return a.f((ix[0],)) if c_ is None else a.f((ix[0], c_))
+        if isinstance(j, int):
+            return cell(j)
+        e = cell(len(cols) - 1)
+        for k in range(len(cols) - 2, -1, -1):
+            e = ite(to_z3(j) == k, cell(k), e)
+        return e
+    return Arr((n, len(cols)), f, dt)
+
+
 @model('numpy.append')
 def _np_append(L, arr, values, axis=None):
     """numpy.append(a, v) without axis: flattened a followed by flattened v.  Supported: 1-d a (array or python list) and a
